@@ -4,7 +4,7 @@ REPO     ?= /repo
 B        ?= /verif/build
 CC       := gcc
 GUARD    := -DIAUTHD_C_VERIF
-SAN      ?= -fsanitize=address,undefined -fno-sanitize-recover=null,bounds,object-size,alignment
+SAN      ?= -fsanitize=address,undefined -fno-sanitize-recover=null,bounds,object-size,alignment -fsanitize-recover=address
 CFLAGS   := -O1 -g -fno-omit-frame-pointer -std=gnu99 $(SAN) $(GUARD) -DHAVE_CONFIG_H \
             -I$(REPO) -I/verif/sim/compat \
             -DSYSCONFDIR='"/nonexistent/etc"' -DMODULESDIR='"/nonexistent/lib"' -DLOGDIR='"/nonexistent/log"'
@@ -14,7 +14,12 @@ CORE_SRC := accumulators bitset common config log module set git-version
 CORE_OBJ := $(addprefix $(B)/obj/,$(addsuffix .o,$(CORE_SRC)))
 MODS     := iauth iauth_xquery iauth_class
 STUBS    := m0 m1 m2 m3 m4 m5
-HDRS     := $(wildcard $(REPO)/src/*.h) $(wildcard $(REPO)/modules/*.h) $(wildcard $(REPO)/autoconf.h)
+HDRS     := $(wildcard $(REPO)/src/*.h) $(wildcard $(REPO)/modules/*.h) $(wildcard $(REPO)/autoconf.h) $(B)/.flags
+
+# objects are rebuilt when the compile line or the repository location changes
+$(B)/.flags: FORCE
+	@mkdir -p $(B); echo '$(CC) $(CFLAGS) $(REPO)' | cmp -s - $@ || echo '$(CC) $(CFLAGS) $(REPO)' > $@
+FORCE:
 
 all: $(B)/simhost $(addprefix $(B)/mods/,$(addsuffix .so,$(MODS))) \
      $(addprefix $(B)/stubs/,$(addsuffix .so,$(STUBS)))
@@ -54,4 +59,4 @@ build:
 clean:
 	rm -rf $(B)
 
-.PHONY: all build clean
+.PHONY: all build clean FORCE
